@@ -794,16 +794,49 @@ func (c *Ctx) flowsToBuilder(v ssa.Value, bse *ssa.Function) bool {
 
 func ruleVD12(c *Ctx) {
 	for _, name := range []string{"ParseTaskInput", "ParsePlanInput"} {
-		f := c.ErgoFn(name)
-		if f == nil {
+		p0 := c.ErgoFn(name)
+		if p0 == nil {
 			c.unk("ergo."+name, "anchor", "-", "parser not found")
 			continue
 		}
-		fn := c.Name(f)
-		// success return: result[1] (ValidationError) nil
+		fn := c.Name(p0)
+		// the function that actually decodes: the parser itself, or a helper whose nil result gates the parser's acceptance
+		f := p0
+		if len(callsNamed(p0, "(*encoding/json.Decoder).Decode")) == 0 {
+			f = nil
+			for _, call := range callsIn(p0) {
+				h := call.Common().StaticCallee()
+				cv, isCall := call.(*ssa.Call)
+				if h == nil || !isCall || !c.InModule(h) || h.Blocks == nil || len(callsNamed(h, "(*encoding/json.Decoder).Decode")) == 0 {
+					continue
+				}
+				// the parser's accepting returns must pass the helper's nil-result edge
+				gate := edgesWhere(p0, func(a Atom, holds bool) bool {
+					if a.Kind != "nil" || !holds || len(a.Env) > 0 {
+						return false
+					}
+					cl, _ := callOf(a.X)
+					return cl == cv
+				})
+				okGate := len(gate) > 0
+				for _, r := range returnsOf(p0) {
+					if len(r.Results) == 2 && isNilConst(r.Results[1]) && !mustPassEdges(p0, r.Block(), gate) {
+						okGate = false
+					}
+				}
+				if okGate {
+					f = h
+				}
+			}
+			if f == nil {
+				c.bad(fn, "unknown-fields-rejected", c.FnPos(p0), "the parser neither decodes itself nor accepts only after a decoding helper returned nil")
+				continue
+			}
+		}
+		// accepting returns of the decoding function: last result nil
 		var acc []*ssa.Return
 		for _, r := range returnsOf(f) {
-			if len(r.Results) == 2 && isNilConst(r.Results[1]) {
+			if n := len(r.Results); n >= 1 && isNilConst(r.Results[n-1]) {
 				acc = append(acc, r)
 			}
 		}
@@ -1016,6 +1049,19 @@ func ruleVD13(c *Ctx) {
 // textIsInputLoad: v is *ptr where ptr is a field of the parsed input (Title/Body), or phi of that and "".
 func textIsInputLoad(v ssa.Value) bool {
 	v = strip(v)
+	if cl, ok := v.(*ssa.Call); ok {
+		// an accessor such as GetBody(): every return is the field's string or ""
+		h := cl.Call.StaticCallee()
+		if h == nil || h.Blocks == nil || curProg == nil || !curProg.InModule(h) {
+			return false
+		}
+		for _, r := range returnsOf(h) {
+			if len(r.Results) != 1 || !textIsInputLoad(r.Results[0]) {
+				return false
+			}
+		}
+		return true
+	}
 	switch x := v.(type) {
 	case *ssa.Const:
 		return constStr(x) == "" && x.Value != nil
